@@ -394,6 +394,8 @@ func (pc *pCtx) p7Lockset(s *pSite, wantRaces, wantOrder bool) {
 					val := args[len(args)-1]
 					// loads of shared cells the delivered value is computed from
 					var loads []*ssa.UnOp
+					var atomicLoads []*ssa.Call
+					atomicCell := map[*ssa.Call]*ssa.Alloc{}
 					seen := map[ssa.Value]bool{}
 					var back func(v ssa.Value, d int)
 					back = func(v ssa.Value, d int) {
@@ -431,6 +433,24 @@ func (pc *pCtx) p7Lockset(s *pSite, wantRaces, wantOrder bool) {
 						case *ssa.Extract:
 							back(t.Tuple, d+1)
 						case *ssa.Call:
+							// an atomic reading of a shared cell (valueA.Load(), atomic.LoadInt64(&n)) is a take without a lock
+							if f := t.Common().StaticCallee(); f != nil && strings.HasPrefix(f.Name(), "Load") && len(t.Common().Args) > 0 &&
+								(pkgPathOf(f) == "sync/atomic" || (f.Signature.Recv() != nil && isSyncType(f.Signature.Recv().Type()))) {
+								// the atomic itself, or one reached through the cells that hold it (values[i].Load())
+								cur := s.root(t.Common().Args[0])
+								for k := 0; k < 6; k++ {
+									u, isLoad := cur.(*ssa.UnOp)
+									if !isLoad || u.Op != token.MUL {
+										break
+									}
+									cur = s.root(u.X)
+								}
+								if al, ok := cur.(*ssa.Alloc); ok && al.Parent() == s.Subscribe && !inLoop(al) {
+									atomicLoads = append(atomicLoads, t)
+									atomicCell[t] = al
+									return
+								}
+							}
 							// a value built from the arguments (lo.T2(*a, *b), a conversion helper)
 							if !t.Common().IsInvoke() {
 								for _, a := range t.Common().Args {
@@ -440,6 +460,30 @@ func (pc *pCtx) p7Lockset(s *pSite, wantRaces, wantOrder bool) {
 						case *ssa.BinOp:
 							back(t.X, d+1)
 							back(t.Y, d+1)
+						case *ssa.MakeSlice, *ssa.Alloc:
+							// a local aggregate filled element by element (result[i] = *v): what was stored into it
+							if al, ok := t.(*ssa.Alloc); ok && al.Parent() != fn {
+								break
+							}
+							if refs := v.Referrers(); refs != nil {
+								for _, r := range *refs {
+									var addr ssa.Value
+									switch a := r.(type) {
+									case *ssa.IndexAddr:
+										addr = a
+									case *ssa.FieldAddr:
+										addr = a
+									}
+									if addr == nil || addr.Referrers() == nil {
+										continue
+									}
+									for _, r2 := range *addr.Referrers() {
+										if st, ok := r2.(*ssa.Store); ok && st.Addr == addr {
+											back(st.Val, d+1)
+										}
+									}
+								}
+							}
 						case *ssa.Index:
 							back(t.X, d+1)
 						case *ssa.Lookup:
@@ -471,6 +515,22 @@ func (pc *pCtx) p7Lockset(s *pSite, wantRaces, wantOrder bool) {
 								ok2 = false
 								note = fmt.Sprintf("%s takes %s under %s (%s) and delivers it after the lock is released (%s); %s, so a later take (or a terminal notification) can reach the downstream first", funcKey(fn), cellName(s.root(ld.X)), cellName(l), pc.pos(ld.Pos()), pc.pos(ins.Pos()), why)
 							}
+						}
+					}
+					for _, ld := range atomicLoads {
+						if ld.Parent() != fn || len(inCtxs[fn]) < 2 {
+							continue
+						}
+						relevant = true
+						common := false
+						for l := range ls[ld] {
+							if ls[ins][l] {
+								common = true
+							}
+						}
+						if !common {
+							ok2 = false
+							note = fmt.Sprintf("%s reads %s atomically (%s) and delivers what it read with no lock held since the reading (%s); the function runs in %d concurrent contexts, so a newer reading can reach the downstream first", funcKey(fn), cellName(atomicCell[ld]), pc.pos(ld.Pos()), pc.pos(ins.Pos()), len(inCtxs[fn]))
 						}
 					}
 					if !relevant && len(inCtxs[fn]) < 2 {
